@@ -97,7 +97,10 @@ def main(v: Verdict) -> None:
     jobs.append({"src": gp, "timeout": 600, "opts": Opts()})
     meta.append((gp.name, "source-is-ancestor-of-package"))
     from pygen import FOREIGN_LIB, FOREIGN_LIB_USE
-    fpk = write_pkg({"__init__.py": "", "formod.py": FOREIGN_SRC, "flibuse.py": FOREIGN_LIB_USE}, "forgnpk", siblings=FOREIGN_LIB)
+    # ... and an enum of the package used as a type in another module (it must not be taken for a class of another library)
+    fpk = write_pkg({"__init__.py": "", "formod.py": FOREIGN_SRC, "flibuse.py": FOREIGN_LIB_USE,
+                     "colors.py": "from enum import Enum\n\n\nclass Color(Enum):\n    RED = 1\n\n\ndef other_colors() -> int:\n    ...\n",
+                     "enumuser.py": "from forgnpk.colors import Color\n\n\ndef paint(c: Color) -> Color:\n    ...\n"}, "forgnpk", siblings=FOREIGN_LIB)
     for nc in (False, True):
         jobs.append({"src": fpk, "opts": Opts(nc=nc), "timeout": 300})
         meta.append((fpk.name, f"foreign-classes nc={nc}"))
